@@ -296,10 +296,16 @@ func RunChild(p *Prop, tier string, seed int64, shard, nshards int, build, dir s
 			n = maxWorkers
 		}
 		g.work = make(chan caseItem, 4*n)
+		// start gate: the judging goroutines are released together once the first cases are queued, so that
+		// the first calls into the library made by this process happen at the same time on several goroutines
+		// (lazily initialised tables and "once" constructions are raced at their only vulnerable moment)
+		g.gate = make(chan struct{})
+		g.gateAt = int64(n)
 		for w := 0; w < n; w++ {
 			wg.Add(1)
 			go func(w int) {
 				defer wg.Done()
+				<-g.gate
 				for it := range g.work {
 					for g.pause.Load() {
 						time.Sleep(20 * time.Millisecond)
@@ -309,7 +315,26 @@ func RunChild(p *Prop, tier string, seed int64, shard, nshards int, build, dir s
 			}(w)
 		}
 	}
-	p.Gen(g)
+	if p.ColdStart {
+		// before anything else: the first calls of this process, from several goroutines at once
+		g.run(0, "coldstart", nil, -1)
+	}
+	g.limit = envInt("VERIF_LIMIT", 0)
+	if p.Parallel > 1 {
+		g.burstN = 8
+	}
+	func() {
+		defer func() {
+			if r := recover(); r != nil {
+				if _, ok := r.(limitReached); !ok {
+					panic(r)
+				}
+			}
+		}()
+		p.Gen(g)
+	}()
+	g.flushBurst()
+	g.openGate()
 	if g.work != nil {
 		close(g.work)
 		wg.Wait()
